@@ -9,7 +9,15 @@ import (
 	"verifharness/hx"
 )
 
+// TestZZ is an experiment helper, not part of the check:
+//
+//	ZZ_ORDER=root,gz,hd1 ZZ_REQS="/pub/a.html,g;/old,c;/pub/dir/,o" go test -tags verif -run TestZZ -v ./c09/
+//
+// loads the block written in that order and prints the answers (c = credentials, g = gzip, o = OPTIONS).
 func TestZZ(t *testing.T) {
+	if os.Getenv("ZZ_ORDER") == "" {
+		t.Skip("experiment helper: set ZZ_ORDER and ZZ_REQS")
+	}
 	hx.Quiet()
 	fx := newFixture(t)
 	defer fx.close()
